@@ -1140,6 +1140,384 @@ fn case_agg_big(r: &mut Rng, out: &mut Out) {
     }
 }
 
+// ------------------------------------------------------------------------------------ aggregates beyond COUNT, Sort
+
+#[derive(Clone, Copy, Debug, PartialEq)]
+enum AF {
+    CountStar, Count, Sum, Avg, Min, Max, First, Last, Collect,
+}
+#[derive(Clone, Copy, Debug, PartialEq)]
+enum LT {
+    Any, Int, Float,
+}
+impl LT {
+    fn coq(&self) -> &'static str {
+        match self { LT::Any => "TAny", LT::Int => "TInt", LT::Float => "TFloat" }
+    }
+    fn ty(&self) -> LogicalType {
+        match self { LT::Any => LogicalType::Any, LT::Int => LogicalType::Int64, LT::Float => LogicalType::Float64 }
+    }
+}
+impl AF {
+    fn coq(&self, c: usize) -> String {
+        match self {
+            AF::CountStar => "FCountStar".into(),
+            AF::Count => format!("(FCount {})", coq::nat(c)),
+            AF::Sum => format!("(FSum {})", coq::nat(c)),
+            AF::Avg => format!("(FAvg {})", coq::nat(c)),
+            AF::Min => format!("(FMin {})", coq::nat(c)),
+            AF::Max => format!("(FMax {})", coq::nat(c)),
+            AF::First => format!("(FFirst {})", coq::nat(c)),
+            AF::Last => format!("(FLast {})", coq::nat(c)),
+            AF::Collect => format!("(FCollect {})", coq::nat(c)),
+        }
+    }
+    fn expr(&self, c: usize) -> AggregateExpr {
+        match self {
+            AF::CountStar => AggregateExpr::count_star(),
+            AF::Count => AggregateExpr::count(c),
+            AF::Sum => AggregateExpr::sum(c),
+            AF::Avg => AggregateExpr::avg(c),
+            AF::Min => AggregateExpr::min(c),
+            AF::Max => AggregateExpr::max(c),
+            AF::First => AggregateExpr::first(c),
+            AF::Last => AggregateExpr::last(c),
+            AF::Collect => AggregateExpr::collect(c),
+        }
+    }
+    /// the type `Planner::plan_aggregate` gives the result vector
+    fn planner_type(&self) -> LT {
+        match self {
+            AF::CountStar | AF::Count | AF::Sum | AF::Min | AF::Max => LT::Int,
+            AF::Avg => LT::Float,
+            _ => LT::Any,
+        }
+    }
+    /// function name in GQL / Cypher text
+    fn text(&self) -> Option<&'static str> {
+        match self {
+            AF::Count => Some("count"), AF::Sum => Some("sum"), AF::Avg => Some("avg"), AF::Min => Some("min"),
+            AF::Max => Some("max"), AF::Collect => Some("collect"), _ => None,
+        }
+    }
+    /// Gremlin step
+    fn gremlin(&self) -> Option<&'static str> {
+        match self {
+            AF::Count => Some("count"), AF::Sum => Some("sum"), AF::Avg => Some("mean"), AF::Min => Some("min"),
+            AF::Max => Some("max"), AF::Collect => Some("fold"), _ => None,
+        }
+    }
+}
+fn numeric_like(s: &str) -> bool {
+    matches!(s.bytes().next(), Some(b'0'..=b'9' | b'+' | b'-' | b'.' | b'i' | b'I' | b'n' | b'N'))
+}
+const TWO53: i64 = 1 << 53;
+/// is the column inside the domain of the model of this aggregate (StreamAgg.v)?  (values = the
+/// non-NULL values the function sees, in order)
+fn agg_in_domain(f: AF, vals: &[V]) -> bool {
+    let strs_num = vals.iter().any(|v| matches!(v, V::Str(s) if numeric_like(s)));
+    let floats = vals.iter().any(|v| matches!(v, V::Float(_)));
+    match f {
+        AF::Sum => !strs_num && !floats,
+        AF::Avg => {
+            if strs_num || floats { return false; }
+            let mut acc: i128 = 0;
+            for v in vals {
+                if let V::Int(i) = v {
+                    acc += *i as i128;
+                    if i.unsigned_abs() > TWO53 as u64 || acc.abs() > TWO53 as i128 { return false; }
+                }
+            }
+            true
+        }
+        // a numeric-looking string next to a number or to another numeric-looking string is compared numerically
+        AF::Min | AF::Max => !strs_num,
+        _ => true,
+    }
+}
+/// what the aggregate should answer on a column of Int64 (and NULL) values; None = not decided here
+fn agg_expected_ints(af: AF, col: &[V], nrows: usize) -> Option<V> {
+    let ints: Vec<i64> = col.iter().filter_map(|v| if let V::Int(i) = v { Some(*i) } else { None }).collect();
+    let nonnull: Vec<&V> = col.iter().filter(|v| **v != V::Null).collect();
+    if af == AF::CountStar { return Some(V::Int(nrows as i64)); }
+    if af == AF::Count { return Some(V::Int(nonnull.len() as i64)); }
+    if af == AF::Collect { return Some(V::List(nonnull.into_iter().cloned().collect())); }
+    if ints.len() != nonnull.len() { return None; }
+    match af {
+        AF::Sum => {
+            let s: i128 = ints.iter().map(|x| *x as i128).sum();
+            // partial sums may leave the range although the total does not: only decide when every prefix fits
+            let mut acc: i128 = 0;
+            for x in &ints { acc += *x as i128; if acc > i64::MAX as i128 || acc < i64::MIN as i128 { return None; } }
+            Some(V::Int(s as i64))
+        }
+        AF::Min => Some(ints.iter().min().map_or(V::Null, |m| V::Int(*m))),
+        AF::Max => Some(ints.iter().max().map_or(V::Null, |m| V::Int(*m))),
+        AF::First => Some(ints.first().map_or(V::Null, |m| V::Int(*m))),
+        AF::Last => Some(ints.last().map_or(V::Null, |m| V::Int(*m))),
+        AF::Avg => {
+            if ints.is_empty() { return Some(V::Null); }
+            let s: i128 = ints.iter().map(|x| *x as i128).sum();
+            if s.abs() > TWO53 as i128 { return None; }
+            Some(f(s as f64 / ints.len() as f64))
+        }
+        _ => None,
+    }
+}
+fn coq_orows(o: &Option<Vec<Vec<V>>>) -> String {
+    match o { Some(r) => format!("(Some {})", coq_rows(r)), None => "None".into() }
+}
+fn show_orows(o: &Option<Vec<Vec<V>>>) -> String {
+    match o { Some(r) => show_rows(r), None => "PANIC".into() }
+}
+/// a value for an aggregated column; kind 0: ints (small), 1: ints with extremes, 2: ints + ignorable
+/// values, 3: strings, 4: numbers (Int64 and Float64 — only for min/max/first/last/collect/count)
+fn gen_agg_value(r: &mut Rng, kind: u64) -> V {
+    if r.chance(1, 6) { return V::Null; }
+    match kind {
+        0 => V::Int(r.range(-5, 9)),
+        1 => V::Int(match r.below(4) { 0 => *r.pick(&[i64::MAX, i64::MIN, i64::MAX - 1, 1 << 62, -(1 << 62), 1 << 53, (1 << 53) + 1]), _ => r.range(-3, 3) }),
+        2 => match r.below(6) { 0 => V::Bool(r.chance(1, 2)), 1 => V::Str((*r.pick(&["a", "ab", "zz", "B", "", "é"])).to_string()), 2 => V::List(vec![V::Int(1)]), _ => V::Int(r.range(-50, 50)) },
+        3 => V::Str((*r.pick(&["a", "ab", "abc", "b", "ba", "B", "", "zz", "é", "aé", "a b"])).to_string()),
+        _ => if r.chance(1, 2) { V::Int(r.range(-4, 6)) } else { f(r.range(-9, 13) as f64 / 2.0) },
+    }
+}
+fn gen_group_key(r: &mut Rng) -> V {
+    match r.below(8) { 0 => V::Null, 1 => V::Bool(r.chance(1, 2)), 2 => V::Str((*r.pick(&["a", "b", ""])).to_string()), _ => V::Int(r.range(0, 2)) }
+}
+
+/// SUM / AVG / MIN / MAX / FIRST / LAST / COLLECT / COUNT through the real Simple/HashAggregate operators
+fn case_agg2(r: &mut Rng, out: &mut Out, forced: Option<(Vec<Chunk>, Vec<AF>, bool, bool)>) {
+    let (cs, fs, grouped, planner_types) = match forced {
+        Some(x) => x,
+        None => {
+            let kind = r.below(5);
+            let cs = gen_small_chunks(r, 2, &|r, c| if c == 0 { gen_group_key(r) } else { gen_agg_value(r, kind) });
+            let pool: &[AF] = if kind == 4 { &[AF::Min, AF::Max, AF::First, AF::Last, AF::Collect, AF::Count, AF::CountStar] } else if kind == 1 { &[AF::Sum, AF::Sum, AF::Min, AF::Max, AF::Count, AF::First] } else { &[AF::Sum, AF::Avg, AF::Min, AF::Max, AF::First, AF::Last, AF::Collect, AF::Count, AF::CountStar] };
+            let nf = 1 + r.below(3) as usize;
+            let fs: Vec<AF> = (0..nf).map(|_| *r.pick(pool)).collect();
+            (cs, fs, r.chance(1, 2), r.chance(1, 2))
+        }
+    };
+    let tys: Vec<LT> = fs.iter().map(|f| if planner_types { f.planner_type() } else { LT::Any }).collect();
+    let exprs: Vec<AggregateExpr> = fs.iter().map(|f| f.expr(1)).collect();
+    let chunks: Vec<DataChunk> = cs.iter().map(|c| c.build(2, false)).collect();
+    let logical: Vec<Vec<V>> = cs.iter().flat_map(|c| c.logical()).collect();
+    let got: Option<Vec<Vec<V>>> = catch(std::panic::AssertUnwindSafe(|| {
+        if grouped {
+            let mut schema = vec![LogicalType::Any];
+            schema.extend(tys.iter().map(|t| t.ty()));
+            let mut op = HashAggregateOperator::new(Mock::new(chunks), vec![0], exprs, schema);
+            drain(&mut op).0
+        } else {
+            let mut op = SimpleAggregateOperator::new(Mock::new(chunks), exprs, tys.iter().map(|t| t.ty()).collect());
+            drain(&mut op).0
+        }
+    })).ok();
+    // oracle: per group (structural key), on Int64 columns
+    let mut groups: Vec<(V, Vec<Vec<V>>)> = Vec::new();
+    if grouped {
+        for row in &logical {
+            if let Some(g) = groups.iter_mut().find(|g| g.0 == row[0]) { g.1.push(row.clone()); } else { groups.push((row[0].clone(), vec![row.clone()])); }
+        }
+    } else {
+        groups.push((V::Null, logical.clone()));
+    }
+    let mut decided = true;
+    let mut expected: Vec<Vec<V>> = Vec::new();
+    for (k, rows) in &groups {
+        let col: Vec<V> = rows.iter().map(|r| r[1].clone()).collect();
+        let mut e = if grouped { vec![k.clone()] } else { vec![] };
+        for fx in &fs {
+            match agg_expected_ints(*fx, &col, rows.len()) { Some(v) => e.push(v), None => decided = false }
+        }
+        expected.push(e);
+    }
+    let oracle = if !decided { Oracle::Na } else if got.as_ref() == Some(&expected) { Oracle::Ok } else { Oracle::Fail };
+    let aggs = coq::list(fs.iter().map(|f| f.coq(1)));
+    let tysc = coq::list(tys.iter().map(|t| t.coq().to_string()));
+    let mut tags = tag(&["op:agg2", if grouped { "agg2:grouped" } else { "agg2:global" }, if planner_types { "agg2:planner-types" } else { "agg2:any-types" }]);
+    for fx in &fs { tags.push(format!("agg2:{:?}", fx).to_lowercase()); }
+    if got.is_none() { tags.push("agg2:panic".into()); }
+    out.emit(&Case {
+        kind: "agg2".into(),
+        input: format!("{:?} {} over {}", fs, if grouped { "group by c0" } else { "global" }, show_chunks(&cs)),
+        coq: Some(if grouped {
+            format!("chk_hash_agg2 [0%nat] {} {} {} {}", aggs, tysc, coq_chunks(&cs), coq_orows(&got))
+        } else {
+            format!("chk_simple_agg2 {} {} {} {}", aggs, tysc, coq_chunks(&cs), coq_orows(&got))
+        }),
+        show: Some(if grouped { format!("show_hash_agg2 [0%nat] {} {} {}", aggs, tysc, coq_chunks(&cs)) } else { format!("show_simple_agg2 {} {} {}", aggs, tysc, coq_chunks(&cs)) }),
+        oracle,
+        msg: if oracle == Oracle::Fail { format!("returned {} expected {}", show_orows(&got), show_rows(&expected)) } else { String::new() },
+        nontrivial: cs.len() >= 2 && logical.len() >= 3,
+        imp: show_orows(&got),
+        tags,
+        ..Default::default()
+    });
+}
+
+/// big integer inputs: value of physical row i = i mod m - off
+fn case_agg2_big(r: &mut Rng, out: &mut Out) {
+    let ss = gen_specs(r, true);
+    let m = *r.pick(&[7i64, 1000, 4099]);
+    let off = *r.pick(&[0i64, 3, 500]);
+    let fs = [AF::Sum, AF::Avg, AF::Min, AF::Max, AF::Count, AF::Last];
+    let (chunks, logical) = build_specs(&ss, &|i| i % m - off, r.chance(1, 2));
+    let tys: Vec<LT> = fs.iter().map(|f| f.planner_type()).collect();
+    let got: Option<Vec<Vec<V>>> = catch(std::panic::AssertUnwindSafe(|| {
+        let mut op = SimpleAggregateOperator::new(Mock::new(chunks), fs.iter().map(|f| f.expr(0)).collect(), tys.iter().map(|t| t.ty()).collect());
+        drain(&mut op).0
+    })).ok();
+    let col: Vec<V> = logical.iter().map(|x| V::Int(*x)).collect();
+    let expected: Vec<V> = fs.iter().map(|fx| agg_expected_ints(*fx, &col, col.len()).unwrap()).collect();
+    let ok = got.as_ref() == Some(&vec![expected.clone()]);
+    out.emit(&Case {
+        kind: "agg2_big".into(),
+        input: format!("{:?} over i mod {} - {} chunks={}", fs, m, off, show_specs(&ss)),
+        coq: Some(format!("chk_simple_agg2_mod {} {} {} {} {} {}", coq::z(m), coq::z(off), coq::list(fs.iter().map(|f| f.coq(0))), coq::list(tys.iter().map(|t| t.coq().to_string())), coq_specs(&ss), coq_orows(&got))),
+        oracle: if ok { Oracle::Ok } else { Oracle::Fail },
+        msg: if ok { String::new() } else { format!("returned {} expected {}", show_orows(&got), show_rows(&[expected])) },
+        nontrivial: ss.len() >= 2,
+        imp: show_orows(&got),
+        tags: tag(&["op:agg2", "agg2:big"]),
+        ..Default::default()
+    });
+}
+
+#[derive(Clone, Copy)]
+struct SK {
+    col: usize,
+    desc: bool,
+    nulls_first: bool,
+}
+impl SK {
+    fn coq(&self) -> String {
+        format!("(mkSKey {} {} {})", coq::nat(self.col), if self.desc { "Desc" } else { "Asc" }, if self.nulls_first { "NullsFirst" } else { "NullsLast" })
+    }
+    fn key(&self) -> grafeo_core::execution::operators::SortKey {
+        use grafeo_core::execution::operators::{NullOrder, SortKey};
+        let k = if self.desc { SortKey::descending(self.col) } else { SortKey::ascending(self.col) };
+        k.with_null_order(if self.nulls_first { NullOrder::NullsFirst } else { NullOrder::NullsLast })
+    }
+    fn show(&self) -> String {
+        format!("c{}{}{}", self.col, if self.desc { " desc" } else { "" }, if self.nulls_first { " nulls-first" } else { "" })
+    }
+}
+/// independent comparator for one-class columns (Int64 / String / Bool, with NULLs)
+fn spec_cmp(keys: &[SK], a: &[V], b: &[V]) -> std::cmp::Ordering {
+    use std::cmp::Ordering::*;
+    for k in keys {
+        let (x, y) = (&a[k.col], &b[k.col]);
+        let c = match (x, y) {
+            (V::Null, V::Null) => Equal,
+            (V::Null, _) => if k.nulls_first { Less } else { Greater },
+            (_, V::Null) => if k.nulls_first { Greater } else { Less },
+            (V::Int(p), V::Int(q)) => p.cmp(q),
+            (V::Str(p), V::Str(q)) => p.as_bytes().cmp(q.as_bytes()),
+            (V::Bool(p), V::Bool(q)) => p.cmp(q),
+            (V::Float(p), V::Float(q)) => f64::from_bits(*p).partial_cmp(&f64::from_bits(*q)).unwrap_or(Equal),
+            (V::Int(p), V::Float(q)) => (*p as f64).partial_cmp(&f64::from_bits(*q)).unwrap_or(Equal),
+            (V::Float(p), V::Int(q)) => f64::from_bits(*p).partial_cmp(&(*q as f64)).unwrap_or(Equal),
+            _ => Equal,
+        };
+        let c = if k.desc { c.reverse() } else { c };
+        if c != Equal { return c; }
+    }
+    Equal
+}
+fn gen_sort_value(r: &mut Rng, class: u64) -> V {
+    if r.chance(1, 5) { return V::Null; }
+    match class {
+        0 => V::Int(r.range(-2, 3)),
+        1 => V::Str((*r.pick(&["", "a", "ab", "b", "B", "é", "aé"])).to_string()),
+        2 => V::Bool(r.chance(1, 2)),
+        3 => V::Int(*r.pick(&[i64::MIN, i64::MAX, 0, -1, 1, 1 << 53, (1 << 53) + 1])),
+        _ => if r.chance(1, 2) { V::Int(r.range(-3, 3)) } else { f(r.range(-7, 7) as f64 / 2.0) },
+    }
+}
+fn gen_sort_keys(r: &mut Rng) -> Vec<SK> {
+    let mut keys = vec![SK { col: r.below(2) as usize, desc: r.chance(1, 2), nulls_first: r.chance(1, 3) }];
+    if r.chance(1, 2) { keys.push(SK { col: 1 - keys[0].col, desc: r.chance(1, 2), nulls_first: r.chance(1, 3) }); }
+    if r.chance(1, 6) { keys.push(SK { col: 2, desc: true, nulls_first: false }); }
+    keys
+}
+
+/// the real SortOperator over a mock child: multi-key, directions, NULL placement, ties (stability)
+fn case_sort(r: &mut Rng, out: &mut Out, forced: Option<(Vec<Chunk>, Vec<SK>)>) {
+    let (cs, keys) = match forced {
+        Some(x) => x,
+        None => {
+            let (c0, c1) = (r.below(5), r.below(5));
+            let mut id = 0i64;
+            let mut cs = gen_small_chunks(r, 3, &|r, c| match c { 0 => gen_sort_value(r, c0), 1 => gen_sort_value(r, c1), _ => V::Int(0) });
+            for c in cs.iter_mut() { for row in c.rows.iter_mut() { row[2] = V::Int(id); id += 1; } }
+            (cs, gen_sort_keys(r))
+        }
+    };
+    let logical: Vec<Vec<V>> = cs.iter().flat_map(|c| c.logical()).collect();
+    let mut op = grafeo_core::execution::operators::SortOperator::new(
+        Mock::new(cs.iter().map(|c| c.build(3, false)).collect()), keys.iter().map(|k| k.key()).collect(), vec![LogicalType::Any; 3]);
+    let (rows, counts) = drain(&mut op);
+    let mut expected = logical.clone();
+    expected.sort_by(|a, b| spec_cmp(&keys, a, b));
+    let ok = rows == expected;
+    let ties = expected.windows(2).any(|w| spec_cmp(&keys, &w[0], &w[1]) == std::cmp::Ordering::Equal);
+    let kc = coq::list(keys.iter().map(|k| k.coq()));
+    let mut tags = tag(&["op:sort", &format!("sort:{}-keys", keys.len())]);
+    if ties { tags.push("sort:has-ties".into()); }
+    if logical.iter().any(|r| keys.iter().any(|k| r[k.col] == V::Null)) { tags.push("sort:null-keys".into()); }
+    if keys.iter().any(|k| k.desc) { tags.push("sort:desc".into()); }
+    out.emit(&Case {
+        kind: "sort".into(),
+        input: format!("[{}] over {}", keys.iter().map(|k| k.show()).collect::<Vec<_>>().join(", "), show_chunks(&cs)),
+        // the model is the stable insertion sort; it stands for sort_by only where the comparator is a total preorder
+        coq: Some(format!("sort_consistent {} {} && chk_sort {} {} {} {}", kc, coq_chunks(&cs), kc, coq_chunks(&cs), coq_rows(&rows), coq::list(counts.iter().map(|c| coq::z(*c as i64))))),
+        show: Some(format!("show_sort {} {}", kc, coq_chunks(&cs))),
+        oracle: if ok { Oracle::Ok } else { Oracle::Fail },
+        msg: if ok { String::new() } else { format!("returned {} expected {}", show_rows(&rows), show_rows(&expected)) },
+        nontrivial: logical.len() >= 3 && (ties || keys.len() >= 2),
+        imp: show_rows(&rows),
+        tags,
+        ..Default::default()
+    });
+}
+
+/// big inputs: row i = [((a * i) mod m) / g, i]; more than one output batch
+fn case_sort_big(r: &mut Rng, out: &mut Out) {
+    let ss = gen_specs(r, true);
+    let (a, m) = (1237i64, 4100i64);
+    let g = *r.pick(&[1i64, 7, 1000]);
+    let keys = if r.chance(1, 2) { vec![SK { col: 0, desc: r.chance(1, 2), nulls_first: false }] } else { vec![SK { col: 0, desc: r.chance(1, 2), nulls_first: false }, SK { col: 1, desc: true, nulls_first: false }] };
+    let mut base = 0i64;
+    let mut chunks = Vec::new();
+    let mut logical: Vec<Vec<V>> = Vec::new();
+    for s in &ss {
+        let rows: Vec<Vec<V>> = (0..s.n).map(|i| { let x = base + i as i64; vec![V::Int(((a * x) % m) / g), V::Int(x)] }).collect();
+        let c = Chunk { rows, sel: s.sel.clone() };
+        logical.extend(c.logical());
+        chunks.push(c.build(2, r.chance(1, 2)));
+        base += s.n as i64;
+    }
+    let mut op = grafeo_core::execution::operators::SortOperator::new(Mock::new(chunks), keys.iter().map(|k| k.key()).collect(), vec![LogicalType::Any; 2]);
+    let (rows, counts) = drain(&mut op);
+    let mut expected = logical.clone();
+    expected.sort_by(|x, y| spec_cmp(&keys, x, y));
+    let ok = rows == expected;
+    let got: Vec<i64> = rows.iter().map(|r| match &r[1] { V::Int(i) => *i, _ => -1 }).collect();
+    out.emit(&Case {
+        kind: "sort_big".into(),
+        input: format!("[{}] over rows (({}*i mod {})/{}, i) chunks={}", keys.iter().map(|k| k.show()).collect::<Vec<_>>().join(", "), a, m, g, show_specs(&ss)),
+        coq: Some(format!("chk_sort_perm {} {} {} {} {} {} {}", coq::list(keys.iter().map(|k| k.coq())), coq::z(a), coq::z(m), coq::z(g), coq_specs(&ss), coq::list(got.iter().map(|x| coq::z(*x))), coq::list(counts.iter().map(|c| coq::z(*c as i64))))),
+        oracle: if ok { Oracle::Ok } else { Oracle::Fail },
+        msg: if ok { String::new() } else { "the output is not the stable sort of the input".into() },
+        nontrivial: logical.len() > 2048,
+        imp: format!("{} chunks={:?}", show_ints(&got), counts),
+        tags: tag(&["op:sort", "sort:big", if g > 1 { "sort:has-ties" } else { "sort:distinct-keys" }]),
+        ..Default::default()
+    });
+}
+
 // ------------------------------------------------------------------------------------ engine level
 
 use grafeo_engine::query::plan::{LogicalOperator, LogicalPlan, UnionOp};
@@ -1709,6 +2087,240 @@ fn case_eng_union(r: &mut Rng, g: &Graph, out: &mut Out) {
     }
 }
 
+/// aggregates through the sessions: MATCH (n:L) RETURN f(n.pc)  /  RETURN n.pg, f(n.pc)  /  Gremlin values(..).f()
+fn case_eng_agg(r: &mut Rng, g: &Graph, out: &mut Out, forced: Option<(AF, usize, bool, Lang)>) {
+    let (af, c, grouped, lang) = forced.unwrap_or_else(|| {
+        let af = *r.pick(&[AF::Sum, AF::Sum, AF::Avg, AF::Min, AF::Max, AF::Collect, AF::Count]);
+        let lang = match r.below(5) { 0 | 1 => Lang::Gql, 2 | 3 => Lang::Cypher, _ => Lang::Gremlin };
+        (af, r.below(NPROPS as u64) as usize, lang != Lang::Gremlin && r.chance(1, 3), lang)
+    });
+    let gc = 3usize; // group column
+    let base = run_query(&g.db, Lang::Cypher, &format!("MATCH (n:{}) RETURN n.p{}, n.p{}", g.label, gc, c));
+    let q = match lang {
+        Lang::Gremlin => format!("g.V().hasLabel('{}').values('p{}').{}()", g.label, c, af.gremlin().unwrap()),
+        _ if grouped => format!("MATCH (n:{}) RETURN n.p{}, {}(n.p{})", g.label, gc, af.text().unwrap(), c),
+        _ => format!("MATCH (n:{}) RETURN {}(n.p{})", g.label, af.text().unwrap(), c),
+    };
+    let vals: Vec<(V, V)> = match base {
+        Ok(b) => b.iter().map(|r| (r[0].clone(), r[1].clone())).collect(),
+        Err(e) => { out.emit(&Case { kind: "eng_agg".into(), input: q, oracle: Oracle::Na, msg: e.clone(), imp: e, tags: tag(&["eng:agg", "eng:query-rejected"]), ..Default::default() }); return; }
+    };
+    let got = run_query(&g.db, lang, &q);
+    let got: Option<Vec<Vec<V>>> = match got {
+        Ok(x) => Some(x),
+        Err(e) if e.starts_with("PANIC") => None,
+        Err(e) => { out.emit(&Case { kind: "eng_agg".into(), input: format!("{} | {}", lang.name(), q), oracle: Oracle::Na, msg: e.clone(), imp: e, tags: tag(&["eng:agg", "eng:query-rejected"]), ..Default::default() }); return; }
+    };
+    let col: Vec<V> = vals.iter().map(|p| p.1.clone()).collect();
+    let nonnull: Vec<V> = col.iter().filter(|v| **v != V::Null).cloned().collect();
+    let in_dom = agg_in_domain(af, &nonnull)
+        // Gremlin values('p') drops the rows without the property before the aggregate: same non-NULL values
+        && (!grouped || vals.iter().all(|p| !matches!(p.0, V::Float(_) | V::List(_))));
+    // oracle: the aggregate of the values the query without the aggregate returns (Int64 columns, string MIN/MAX)
+    let expected: Option<Vec<Vec<V>>> = if grouped {
+        let mut groups: Vec<(V, Vec<V>)> = Vec::new();
+        for (k, v) in &vals {
+            if let Some(gr) = groups.iter_mut().find(|gr| gr.0 == *k) { gr.1.push(v.clone()); } else { groups.push((k.clone(), vec![v.clone()])); }
+        }
+        let mut rows = Vec::new();
+        let mut ok = true;
+        for (k, vs) in &groups {
+            match agg_expected(af, vs) { Some(v) => rows.push(vec![k.clone(), v]), None => ok = false }
+        }
+        if ok { Some(rows) } else { None }
+    } else {
+        agg_expected(af, &col).map(|v| vec![vec![v]])
+    };
+    let oracle = match (&expected, &got) {
+        (None, _) => Oracle::Na,
+        (Some(e), Some(x)) if e == x => Oracle::Ok,
+        _ => Oracle::Fail,
+    };
+    let valsc = coq::list(vals.iter().map(|(k, v)| format!("({}, {})", k.coq(), v.coq())));
+    let fc = af.coq(1);
+    let mut tags = tag(&["eng:agg", &format!("lang:{}", lang.name()), &format!("agg2:{:?}", af).to_lowercase(), if grouped { "agg2:grouped" } else { "agg2:global" }]);
+    if got.is_none() { tags.push("agg2:panic".into()); }
+    if !in_dom { tags.push("agg2:outside-model-domain".into()); }
+    let (kid, kcoq) = if oracle != Oracle::Fail { (None, None) } else if got.is_none() {
+        (Some("C11-K10".to_string()), Some(format!("k_sum_overflow {} {}", fc, valsc)))
+    } else {
+        (Some("C11-K9".to_string()), Some(format!("k_agg_typed {} {}", fc, valsc)))
+    };
+    out.emit(&Case {
+        kind: "eng_agg".into(),
+        input: format!("{} | {} | values {}", lang.name(), q, vals.iter().map(|(k, v)| if grouped { format!("{}:{}", k.show(), v.show()) } else { v.show() }).collect::<Vec<_>>().join(",")),
+        coq: if in_dom { Some(format!("{} {} {} {}", if grouped { "chk_eng_group_agg" } else { "chk_eng_agg" }, fc, valsc, coq_orows(&got))) } else { None },
+        show: Some(format!("show_eng_agg {} {}", fc, valsc)),
+        oracle,
+        msg: if oracle == Oracle::Fail { format!("returned {} expected {}", show_orows(&got), show_orows(&expected)) } else { String::new() },
+        kcoq,
+        kid,
+        nontrivial: nonnull.len() >= 2,
+        imp: show_orows(&got),
+        tags,
+        ..Default::default()
+    });
+}
+/// expected aggregate over projected values: Int64 columns as in `agg_expected_ints`; MIN / MAX of a
+/// column of plain strings bytewise; None = not decided by this oracle
+fn agg_expected(af: AF, col: &[V]) -> Option<V> {
+    let nonnull: Vec<&V> = col.iter().filter(|v| **v != V::Null).collect();
+    if matches!(af, AF::Min | AF::Max) && !nonnull.is_empty() && nonnull.iter().all(|v| matches!(v, V::Str(s) if !numeric_like(s))) {
+        let mut ss: Vec<&String> = nonnull.iter().map(|v| if let V::Str(s) = v { s } else { unreachable!() }).collect();
+        ss.sort_by(|a, b| a.as_bytes().cmp(b.as_bytes()));
+        return Some(V::Str(if af == AF::Min { ss[0].clone() } else { ss[ss.len() - 1].clone() }));
+    }
+    if af == AF::Sum {
+        // a sum that does not fit i64 has no right answer to compare with, but it must not panic
+        let ints: Vec<i64> = nonnull.iter().filter_map(|v| if let V::Int(i) = v { Some(*i) } else { None }).collect();
+        if ints.len() == nonnull.len() {
+            let mut acc: i128 = 0;
+            for x in &ints { acc += *x as i128; if acc > i64::MAX as i128 || acc < i64::MIN as i128 { return Some(V::Str("<no panic>".into())); } }
+        }
+    }
+    agg_expected_ints(af, col, col.len())
+}
+
+/// ORDER BY on one or two keys (ASC / DESC, NULLs and missing properties, ties) with SKIP / LIMIT
+fn case_eng_sort(r: &mut Rng, g: &Graph, out: &mut Out, forced: Option<(usize, bool, bool, Option<usize>, Option<usize>, Lang)>) {
+    let n = g.tab.len();
+    let (c, d1, d2, s, k, lang) = forced.unwrap_or_else(|| {
+        let lang = match r.below(5) { 0 | 1 => Lang::Gql, 2 | 3 => Lang::Cypher, _ => Lang::Gremlin };
+        (r.below(NPROPS as u64) as usize, r.chance(1, 2), r.chance(1, 2), if r.chance(1, 2) { gen_small_bound(r, n) } else { None }, if r.chance(1, 2) { gen_small_bound(r, n) } else { None }, lang)
+    });
+    // GQL applies SKIP / LIMIT below the sort (finding K2, covered by eng_window): keep them out of this case
+    let (s, k) = if lang == Lang::Gql { (None, None) } else { (s, k) };
+    let base = run_query(&g.db, Lang::Cypher, &format!("MATCH (n:{}) RETURN n.p{}, n.k, n.id", g.label, c));
+    let rows: Vec<Vec<V>> = match base { Ok(b) => b, Err(_) => return };
+    // the key column must be of one orderable class (else sort.rs' comparator is not an order)
+    let cls: Vec<u8> = rows.iter().filter_map(|r| match &r[0] { V::Null => None, V::Int(_) => Some(0), V::Str(_) => Some(1), V::Bool(_) => Some(2), _ => Some(9) }).collect();
+    if cls.iter().any(|x| *x == 9 || *x != cls[0]) {
+        return;
+    }
+    let dir = |d: bool| if d { " DESC" } else { "" };
+    let q = match lang {
+        Lang::Gql => format!("MATCH (n:{}) RETURN n.id ORDER BY n.p{}{}, n.k{}", g.label, c, dir(d1), dir(d2)),
+        Lang::Gremlin => format!("g.V().hasLabel('{}').order().by('p{}', {}).by('k', {}){}{}.values('id')", g.label, c, if d1 { "desc" } else { "asc" }, if d2 { "desc" } else { "asc" },
+            s.map_or(String::new(), |x| format!(".skip({})", x)), k.map_or(String::new(), |x| format!(".limit({})", x))),
+        _ => format!("MATCH (n:{}) WITH n.p{} AS a, n.k AS b, n.id AS id RETURN a, b, id ORDER BY a{}, b{}{}{}", g.label, c, dir(d1), dir(d2), opt_text("SKIP", s), opt_text("LIMIT", k)),
+    };
+    let got = match run_query(&g.db, lang, &q) {
+        Ok(x) => x.iter().map(|r| match r.last() { Some(V::Int(i)) => *i, _ => i64::MIN }).collect::<Vec<i64>>(),
+        Err(e) => { out.emit(&Case { kind: "eng_sort".into(), input: format!("{} | {}", lang.name(), q), oracle: if e.starts_with("PANIC") { Oracle::Fail } else { Oracle::Na }, msg: e.clone(), imp: e, tags: tag(&["eng:sort", "eng:query-rejected"]), ..Default::default() }); return; }
+    };
+    let keys = [SK { col: 0, desc: d1, nulls_first: false }, SK { col: 1, desc: d2, nulls_first: false }];
+    let mut sorted_rows = rows.clone();
+    sorted_rows.sort_by(|a, b| spec_cmp(&keys, a, b));
+    let expected: Vec<i64> = sorted_rows.iter().skip(s.unwrap_or(0)).take(k.unwrap_or(usize::MAX)).map(|r| match &r[2] { V::Int(i) => *i, _ => i64::MIN }).collect();
+    let ok = got == expected;
+    let mut tags = tag(&["eng:sort", &format!("lang:{}", lang.name())]);
+    if rows.iter().any(|r| r[0] == V::Null) { tags.push("sort:null-keys".into()); }
+    if d1 || d2 { tags.push("sort:desc".into()); }
+    out.emit(&Case {
+        kind: "eng_sort".into(),
+        input: format!("{} | {} | rows {}", lang.name(), q, show_rows(&rows)),
+        coq: Some(format!("chk_eng_sort {} {} {} {} {}", coq::list(keys.iter().map(|k| k.coq())), coq_rows(&rows), coq_oz(s.map(|x| x as i64)), coq_oz(k.map(|x| x as i64)), coq_ints(&got))),
+        show: Some(format!("show_eng_sort {} {} {} {}", coq::list(keys.iter().map(|k| k.coq())), coq_rows(&rows), coq_oz(s.map(|x| x as i64)), coq_oz(k.map(|x| x as i64)))),
+        oracle: if ok { Oracle::Ok } else { Oracle::Fail },
+        msg: if ok { String::new() } else { format!("returned {:?} expected {:?}", got, expected) },
+        nontrivial: rows.len() >= 3,
+        imp: format!("{:?}", got),
+        tags,
+        ..Default::default()
+    });
+}
+
+/// the identities in Gremlin and GraphQL: count = number of rows, dedup = each row once, filter + count
+fn case_eng_lang(r: &mut Rng, g: &Graph, out: &mut Out) {
+    let c = r.below(NPROPS as u64) as usize;
+    // (1) Gremlin dedup: values('pc').dedup() against values('pc')
+    let all = run_query(&g.db, Lang::Gremlin, &format!("g.V().hasLabel('{}').values('p{}')", g.label, c));
+    let q = format!("g.V().hasLabel('{}').values('p{}').dedup()", g.label, c);
+    if let (Ok(all), Ok(got)) = (all, run_query(&g.db, Lang::Gremlin, &q)) {
+        let vals: Vec<V> = all.iter().map(|r| r[0].clone()).collect();
+        let expected = dedup_struct(&all);
+        let ok = got == expected;
+        let valsc = coq::list(vals.iter().map(|v| v.coq()));
+        out.emit(&Case {
+            kind: "eng_distinct".into(),
+            input: format!("gremlin | {} | values {}", q, vals.iter().map(|v| v.show()).collect::<Vec<_>>().join(",")),
+            coq: Some(format!("chk_eng_with_distinct {} {}", valsc, coq_rows(&got))),
+            oracle: if ok { Oracle::Ok } else { Oracle::Fail },
+            msg: if ok { String::new() } else { format!("returned {} expected {}", show_rows(&got), show_rows(&expected)) },
+            kcoq: if ok { None } else { Some(format!("k_key_collision_vals {}", valsc)) },
+            kid: if ok { None } else { Some("C11-K4".into()) },
+            nontrivial: expected.len() < all.len(),
+            imp: show_rows(&got),
+            tags: tag(&["eng:distinct", "lang:gremlin", "distinct:gremlin-dedup"]),
+            ..Default::default()
+        });
+    }
+    // (2) Gremlin / GraphQL filter against the Cypher filter, and count() against the number of rows
+    let lit = r.range(0, 6);
+    let ops: &[(&str, &str, &str)] = if has_stored_null(&g.tab, c) {
+        // (the zone-map treatment of <> with a stored NULL is finding K6, witnessed by the corpus)
+        &[("gt", ">", "_gt"), ("gte", ">=", "_gte"), ("lt", "<", "_lt"), ("lte", "<=", "_lte"), ("eq", "=", "")]
+    } else {
+        &[("gt", ">", "_gt"), ("gte", ">=", "_gte"), ("lt", "<", "_lt"), ("lte", "<=", "_lte"), ("eq", "=", ""), ("neq", "<>", "_ne")]
+    };
+    let (gop, cop, qop) = *r.pick(ops);
+    let reference = run_query(&g.db, Lang::Cypher, &format!("MATCH (n:{}) WITH n WHERE (n.p{} {} {}) RETURN n.id", g.label, c, cop, lit));
+    let Ok(reference) = reference else { return };
+    let want = sorted(ints_of(&reference));
+    for lang in [Lang::Gremlin, Lang::GraphQl] {
+        let q = match lang {
+            Lang::Gremlin => format!("g.V().hasLabel('{}').has('p{}', {}({})).values('id')", g.label, c, gop, lit),
+            _ => format!("{{ {}(where: {{ p{}{}: {} }}) {{ id }} }}", g.label, c, qop, lit),
+        };
+        match run_query(&g.db, lang, &q) {
+            Ok(rows) => {
+                let got = sorted(ints_of(&rows));
+                let ok = got == want;
+                // the model: Filter over the scan (the Cypher WITH form above goes through the Filter operator too)
+                let p = E::Bin(match cop { ">" => Op::Gt, ">=" => Op::Ge, "<" => Op::Lt, "<=" => Op::Le, "=" => Op::Eq, _ => Op::Ne }, Box::new(E::Var(c)), lit_e(lit));
+                let scan: Vec<i64> = (0..g.tab.len() as i64).collect();
+                out.emit(&Case {
+                    kind: "eng_filter_lang".into(),
+                    input: format!("{} | {} | table {}", lang.name(), q, g.show_tab()),
+                    // GraphQL plans a Filter directly over the label scan (range path of plan_filter); Gremlin's has() sits on the hasLabel filter
+                    coq: Some(format!("same_ids ({} {} {} {}) {}", if lang == Lang::GraphQl { "eng_where" } else { "eng_filter" }, g.coq_tab(), coq_ints(&scan), p.coq(), coq_ints(&got))),
+                    oracle: if ok { Oracle::Ok } else { Oracle::Fail },
+                    msg: if ok { String::new() } else { format!("returned {:?}; Cypher's Filter returns {:?}", got, want) },
+                    kcoq: if ok || lang != Lang::GraphQl { None } else { Some(format!("k_range_path {} {} {}", g.coq_tab(), coq_ints(&scan), p.coq())) },
+                    kid: if ok || lang != Lang::GraphQl { None } else { Some("C11-K8".into()) },
+                    nontrivial: !want.is_empty() && want.len() < g.tab.len(),
+                    imp: format!("{:?}", got),
+                    tags: tag(&["eng:filter-lang", &format!("lang:{}", lang.name())]),
+                    ..Default::default()
+                });
+                if lang == Lang::Gremlin {
+                    let qc = format!("g.V().hasLabel('{}').has('p{}', {}({})).count()", g.label, c, gop, lit);
+                    if let Ok(cr) = run_query(&g.db, Lang::Gremlin, &qc) {
+                        let okc = cr == vec![vec![V::Int(rows.len() as i64)]];
+                        out.emit(&Case {
+                            kind: "eng_count_lang".into(),
+                            input: format!("gremlin | {}", qc),
+                            coq: Some(format!("rows_eqb (rows_of (drain_simple_agg [AggCountStar] (scan_chunks (int_rows_of {})))) {}", coq_ints(&got), coq_rows(&cr))),
+                            oracle: if okc { Oracle::Ok } else { Oracle::Fail },
+                            msg: if okc { String::new() } else { format!("count() = {} but the traversal returns {} rows", show_rows(&cr), rows.len()) },
+                            nontrivial: !rows.is_empty(),
+                            imp: show_rows(&cr),
+                            tags: tag(&["eng:count", "lang:gremlin"]),
+                            ..Default::default()
+                        });
+                    }
+                }
+            }
+            Err(e) => {
+                out.emit(&Case { kind: "eng_filter_lang".into(), input: format!("{} | {}", lang.name(), q), oracle: if e.starts_with("PANIC") { Oracle::Fail } else { Oracle::Na }, msg: e.clone(), imp: e, tags: tag(&["eng:filter-lang", "eng:query-rejected", &format!("lang:{}", lang.name())]), ..Default::default() });
+            }
+        }
+    }
+}
+fn lit_e(i: i64) -> Box<E> {
+    Box::new(E::Lit(V::Int(i)))
+}
+
 // ------------------------------------------------------------------------------------ big table, corpus, main
 
 const BIG_A: i64 = 1237;
@@ -1744,6 +2356,8 @@ fn big_cases(r: &mut Rng, out: &mut Out, thorough: bool) {
         (Lang::Cypher, true, Some(2047), Some(2)), (Lang::Cypher, true, Some(2048), Some(2048)), (Lang::Cypher, true, Some(4097), Some(5)),
         (Lang::Cypher, true, None, Some(2049)), (Lang::Cypher, true, Some(2049), None),
         (Lang::Gql, true, Some(2047), Some(2)), (Lang::Gql, true, None, Some(2048)), (Lang::Gql, true, Some(2049), None), (Lang::Gql, true, None, None),
+        (Lang::Gremlin, false, Some(2047), Some(2049)), (Lang::Gremlin, true, Some(2048), Some(2)), (Lang::Gremlin, true, None, Some(2049)),
+        (Lang::GraphQl, false, Some(2047), Some(2)), (Lang::GraphQl, true, Some(2049), Some(2048)), (Lang::GraphQl, false, None, Some(4097)),
     ];
     for _ in 0..(if thorough { 60 } else { 10 }) {
         let s = if r.chance(1, 4) { None } else { Some(*r.pick(&bounds)) };
@@ -1753,6 +2367,10 @@ fn big_cases(r: &mut Rng, out: &mut Out, thorough: bool) {
     }
     for (l, ord, s, n) in combos {
         case_eng_window(&g.db, "B", "p0", g.perm, l, ord, s, n, out);
+    }
+    for af in [AF::Sum, AF::Avg, AF::Min, AF::Max, AF::Count] {
+        let l = *r.pick(&[Lang::Gql, Lang::Cypher, Lang::Gremlin]);
+        case_eng_agg(r, &g, out, Some((af, 0, false, l)));
     }
     // counts
     for (l, s, n) in [(Lang::Gql, None, None), (Lang::Cypher, None, None), (Lang::Gql, Some(2049), None), (Lang::Gql, None, Some(2048)), (Lang::Cypher, Some(1), None), (Lang::Cypher, None, Some(1)), (Lang::Cypher, Some(0), Some(0))] {
@@ -1831,6 +2449,32 @@ fn corpus(r: &mut Rng, out: &mut Out) {
     // K5: more than 2048 fresh rows in one input chunk
     case_distinct_mod(r, out, Some((100000, vec![Spec { n: 2049, sel: None }])));
     case_distinct_mod(r, out, Some((100000, vec![Spec { n: 2048, sel: None }, Spec { n: 2048, sel: None }, Spec { n: 4, sel: None }])));
+    // aggregates: SUM leaves the i64 range (panic in an overflow-checked build), MIN of strings through the
+    // planner's Int64 result vector, AVG rounding, FIRST/LAST/COLLECT skip NULLs, an empty input
+    let col = |vs: Vec<V>| vec![Chunk { rows: vs.into_iter().map(|v| vec![V::Int(0), v]).collect(), sel: None }];
+    case_agg2(r, out, Some((col(vec![V::Int(mx), V::Int(1)]), vec![AF::Sum], false, true)));
+    case_agg2(r, out, Some((col(vec![V::Int(mx), V::Int(1), V::Int(-5)]), vec![AF::Sum, AF::Min, AF::Max], true, true)));
+    case_agg2(r, out, Some((col(vec![V::Int(mn), V::Int(mx)]), vec![AF::Sum, AF::Min, AF::Max, AF::Count], false, true)));
+    case_agg2(r, out, Some((col(vec![V::Str("b".into()), V::Str("a".into()), V::Null]), vec![AF::Min, AF::Max], false, true)));
+    case_agg2(r, out, Some((col(vec![V::Str("b".into()), V::Str("a".into()), V::Null]), vec![AF::Min, AF::Max], false, false)));
+    case_agg2(r, out, Some((col(vec![V::Int(1), V::Int(2), V::Int(2), V::Null]), vec![AF::Avg, AF::First, AF::Last, AF::Collect], false, true)));
+    case_agg2(r, out, Some((col(vec![V::Int(1), V::Str("a".into()), V::Bool(true), V::Int(3)]), vec![AF::Sum, AF::Avg, AF::Min, AF::Max], false, false)));
+    case_agg2(r, out, Some((vec![], vec![AF::Sum, AF::Avg, AF::Min, AF::Collect, AF::CountStar], false, true)));
+    case_agg2(r, out, Some((vec![], vec![AF::Sum, AF::CountStar], true, true)));
+    // Sort: ties keep the input order, NULLs last (first under DESC), two keys, more than one chunk
+    let srow = |a: V, b: V, id: i64| vec![a, b, V::Int(id)];
+    let sc = vec![
+        Chunk { rows: vec![srow(V::Int(2), V::Str("b".into()), 0), srow(V::Null, V::Str("a".into()), 1), srow(V::Int(1), V::Null, 2), srow(V::Int(2), V::Str("a".into()), 3)], sel: None },
+        Chunk { rows: vec![srow(V::Int(1), V::Null, 4), srow(V::Int(2), V::Str("b".into()), 5), srow(V::Int(9), V::Str("z".into()), 6)], sel: Some(vec![0, 1]) },
+    ];
+    for keys in [
+        vec![SK { col: 0, desc: false, nulls_first: false }],
+        vec![SK { col: 0, desc: true, nulls_first: false }],
+        vec![SK { col: 0, desc: false, nulls_first: true }, SK { col: 1, desc: true, nulls_first: false }],
+        vec![SK { col: 1, desc: false, nulls_first: false }, SK { col: 0, desc: true, nulls_first: true }],
+    ] {
+        case_sort(r, out, Some((sc.clone(), keys)));
+    }
     // engine witnesses on a fixed table: (p0, p1, p2, p3)
     let row = |a: Option<V>, b: Option<V>| vec![a, b, None, None];
     let g = build_graph(r, Some(vec![
@@ -1866,6 +2510,40 @@ fn corpus(r: &mut Rng, out: &mut Out) {
     case_eng_part(r, &g, out, Some((E::Bin(Op::Gt, var0(), lit(1)), Lang::Gql)));
     // K7
     case_eng_union(r, &g, out);
+    // aggregates and ORDER BY through the sessions on the fixed table
+    for l in [Lang::Gql, Lang::Cypher, Lang::Gremlin] {
+        for af in [AF::Sum, AF::Avg, AF::Min, AF::Max, AF::Count, AF::Collect] {
+            case_eng_agg(r, &g, out, Some((af, 1, false, l)));
+        }
+        case_eng_agg(r, &g, out, Some((AF::Sum, 0, l != Lang::Gremlin, l)));
+        case_eng_sort(r, &g, out, Some((1, false, true, None, None, l)));
+        case_eng_sort(r, &g, out, Some((1, true, false, Some(1), Some(3), l)));
+    }
+    let gs = build_graph(&mut Rng::new(11), Some(vec![
+        vec![Some(V::Int(mx)), Some(V::Str("b".into())), Some(V::Int(3)), Some(V::Int(1))],
+        vec![Some(V::Int(1)), Some(V::Str("a".into())), Some(V::Null), Some(V::Int(1))],
+        vec![Some(V::Int(-7)), None, Some(V::Int(3)), Some(V::Int(0))],
+        vec![None, Some(V::Str("ab".into())), Some(V::Int(1)), Some(V::Int(0))],
+    ]));
+    for l in [Lang::Gql, Lang::Cypher, Lang::Gremlin] {
+        case_eng_agg(r, &gs, out, Some((AF::Sum, 0, false, l)));   // i64::MAX + 1 - 7
+        case_eng_agg(r, &gs, out, Some((AF::Min, 1, false, l)));   // MIN of strings
+        case_eng_agg(r, &gs, out, Some((AF::Max, 1, false, l)));
+        case_eng_agg(r, &gs, out, Some((AF::Max, 0, false, l)));
+        case_eng_agg(r, &gs, out, Some((AF::Avg, 2, false, l)));
+        case_eng_sort(r, &gs, out, Some((2, false, false, None, None, l)));
+        case_eng_sort(r, &gs, out, Some((2, true, true, None, Some(3), l)));
+        case_eng_sort(r, &gs, out, Some((1, false, true, Some(1), None, l)));
+    }
+    case_eng_lang(r, &g, out);
+    case_eng_lang(r, &gs, out);
+    for l in [Lang::Gremlin, Lang::GraphQl] {
+        case_eng_window(&g.db, "L", "k", None, l, true, Some(2), Some(3), out);
+        case_eng_window(&g.db, "L", "k", None, l, false, Some(2), Some(3), out);
+        case_eng_window(&g.db, "L", "k", None, l, true, None, Some(1), out);
+    }
+    case_eng_count(&g.db, "L", Lang::Gremlin, None, None, out);
+    case_eng_count(&g.db, "L", Lang::Gremlin, None, Some(1), out);
 }
 
 fn main() {
@@ -1879,20 +2557,23 @@ fn main() {
     // operator level: 60% of the cases
     let n_op = a.cases * 6 / 10;
     for i in 0..n_op {
-        match i % 20 {
+        match i % 24 {
             0..=6 => case_eval(&mut r, &mut out, None),
             7..=9 => case_filter(&mut r, &mut out, None),
             10 | 11 => case_window(&mut r, &mut out, false, None),
             12 => case_window(&mut r, &mut out, true, None),
             13 | 14 => case_distinct(&mut r, &mut out, None),
-            15 => if i % 100 == 15 { case_distinct_mod(&mut r, &mut out, None) } else { case_window(&mut r, &mut out, i % 40 == 15, None) },
+            15 => if i % 96 == 15 { case_distinct_mod(&mut r, &mut out, None) } else { case_window(&mut r, &mut out, i % 48 == 15, None) },
             16 => case_union(&mut r, &mut out),
-            17 | 18 => case_agg(&mut r, &mut out),
-            _ => if i % 100 == 19 { case_agg_big(&mut r, &mut out) } else { case_filter(&mut r, &mut out, None) },
+            17 => case_agg(&mut r, &mut out),
+            18 | 20 => case_agg2(&mut r, &mut out, None),
+            19 => if i % 96 == 19 { case_agg_big(&mut r, &mut out) } else { case_filter(&mut r, &mut out, None) },
+            21 | 22 => case_sort(&mut r, &mut out, None),
+            _ => if i % 96 == 23 { case_sort_big(&mut r, &mut out) } else if i % 96 == 47 { case_agg2_big(&mut r, &mut out) } else { case_sort(&mut r, &mut out, None) },
         }
     }
-    // engine level: graphs with ~16 cases each
-    let n_graphs = (a.cases - n_op) / 16;
+    // engine level: graphs with ~24 cases each
+    let n_graphs = (a.cases - n_op) / 20;
     for _ in 0..n_graphs {
         let g = build_graph(&mut r, None);
         for _ in 0..8 {
@@ -1903,15 +2584,20 @@ fn main() {
         case_eng_distinct(&mut r, &g, &mut out, None);
         case_eng_distinct(&mut r, &g, &mut out, None);
         let n = g.tab.len();
-        for _ in 0..2 {
-            let l = if r.chance(1, 2) { Lang::Gql } else { Lang::Cypher };
+        for _ in 0..3 {
+            let l = match r.below(6) { 0 | 1 => Lang::Gql, 2 | 3 => Lang::Cypher, 4 => Lang::Gremlin, _ => Lang::GraphQl };
             let (s, k) = (gen_small_bound(&mut r, n), gen_small_bound(&mut r, n));
             case_eng_window(&g.db, "L", "k", None, l, r.chance(1, 2), s, k, &mut out);
         }
-        let l = if r.chance(1, 2) { Lang::Gql } else { Lang::Cypher };
+        let l = match r.below(5) { 0 | 1 => Lang::Gql, 2 | 3 => Lang::Cypher, _ => Lang::Gremlin };
         let (s, k) = (gen_small_bound(&mut r, 2), gen_small_bound(&mut r, 2));
         case_eng_count(&g.db, "L", l, s, k, &mut out);
         case_eng_union(&mut r, &g, &mut out);
+        case_eng_agg(&mut r, &g, &mut out, None);
+        case_eng_agg(&mut r, &g, &mut out, None);
+        case_eng_sort(&mut r, &g, &mut out, None);
+        case_eng_sort(&mut r, &g, &mut out, None);
+        case_eng_lang(&mut r, &g, &mut out);
     }
     out.finish();
 }
